@@ -75,7 +75,7 @@ def record_fick(data, want=("steps", "dec", "chk", "trace")):
            "run": {"ok": False, "ev": [], "exc": "not-run", "res": {"k": "mark"}, "static": [], "has_static": False},
            "chk": {"ran": False, "ok": False, "exc": "", "sev": 0, "nfind": 0, "find_ok": True, "maxfind": 0,
                    "json_ok": False, "sevname_ok": False},
-           "trace": {"ran": False, "ok": False, "exc": "", "ops_ok": False, "same_ast": False}}
+           "trace": {"ran": False, "ok": False, "exc": "", "ops_ok": False, "same_ast": False, "prefix_ok": True, "prefix_why": ""}}
     try:
         p = fk.Pickled.load(data)
     except BaseException as e:  # noqa: BLE001
@@ -150,7 +150,52 @@ def record_fick(data, want=("steps", "dec", "chk", "trace")):
         except BaseException as e:  # noqa: BLE001
             t["exc"] = type(e).__name__
             t["why"] = type(e).__name__
+        # proper prefixes (no STOP): tracing must still be a passive view of the same interpreter run
+        ops_all = list(fk.Pickled.load(data))
+        for k in sorted({len(ops_all) - 1, len(ops_all) // 2} - {0}):
+            why = _trace_prefix(fk, tr, ops_all, k)
+            if why:
+                t["prefix_ok"], t["prefix_why"] = False, why
+                break
     return out
+
+
+def _trace_prefix(fk, tr, ops, k):
+    def plain():
+        it = fk.Interpreter(fk.Pickled(list(ops[:k])))
+        try:
+            tree = it.to_ast()
+            return ("ok", _text(tree), len(it.stack))
+        except RecursionError:
+            return ("cyclic", "", 0)
+        except BaseException as e:  # noqa: BLE001
+            return ("exc:" + type(e).__name__, "", 0)
+
+    def traced():
+        it = fk.Interpreter(fk.Pickled(list(ops[:k])))
+        buf = io.StringIO()
+        try:
+            with contextlib.redirect_stdout(buf):
+                tree = tr.Trace(it).run()
+            rep = [ln for ln in buf.getvalue().splitlines() if ln and not ln.startswith("\t")]
+            return ("ok", _text(tree), len(it.stack), rep)
+        except RecursionError:
+            return ("cyclic", "", 0, [])
+        except BaseException as e:  # noqa: BLE001
+            return ("exc:" + type(e).__name__, "", 0, [])
+    a, b = plain(), traced()
+    if "cyclic" in (a[0], b[0]):
+        return ""
+    if a[0] != b[0]:
+        return f"prefix{k}-outcome"
+    if a[0] == "ok":
+        if b[3] != [o.info.name for o in ops[:k]]:
+            return f"prefix{k}-opcodes"
+        if a[1] != b[1]:
+            return f"prefix{k}-program"
+        if a[2] != b[2]:
+            return f"prefix{k}-stack-depth"
+    return ""
 
 
 def record(item):
